@@ -4,6 +4,7 @@ import (
 	"archive/tar"
 	"os"
 	"strings"
+	"time"
 
 	vm "github.com/pojntfx/stfs/internal/verifmodel"
 	"github.com/pojntfx/stfs/pkg/config"
@@ -84,7 +85,9 @@ func (r *refFS) mkdirAll(name string) bool {
 	return true
 }
 
-func (r *refFS) create(name string, excl bool, trunc bool) bool { return r.createMode(name, excl, trunc, 0o644) }
+func (r *refFS) create(name string, excl bool, trunc bool) bool {
+	return r.createMode(name, excl, trunc, 0o644)
+}
 
 func (r *refFS) createMode(name string, excl bool, trunc bool, mode int64) bool {
 	if x := r.find(name); x != nil {
@@ -219,7 +222,7 @@ func c02Prestate() (*verifFS, *refFS) {
 	// a component name reused at a deeper level: "/e/d" is not below "/d"
 	add("/e/d", true, 0)
 	add("/e/d/e", false, 0) // (its name consists of characters of its parent's path)
-	add("/m", true, 0) // an empty directory
+	add("/m", true, 0)      // an empty directory
 	// a directory whose name has more bytes than characters, with a short-named subdirectory that is not empty
 	add("/\xc3\xa9\xc3\xa9", true, 0)
 	add("/\xc3\xa9\xc3\xa9/y", true, 0)
@@ -449,4 +452,78 @@ func Harness_C02_single_call_matches_reference() {
 		}
 	}
 	c02Step(v, ref, "", false)
+}
+
+// Harness_C02_reused_name_history: the four-call history "make A, rename it to B, use the name A again, change an
+// attribute of B (or of the new A)", compared with the reference after every call. The first entry is a file with one
+// byte or a directory, the old name is taken again by a file, by a directory or not at all, and the attribute call is
+// Chmod, Chown or Chtimes.
+func Harness_C02_reused_name_history() {
+	v := verifNewFS(config.PipeConfig{}, false, true)
+	v.rootOnly()
+	ref := &refFS{}
+	ref.add("/", true, 0o644)
+	step := func(what string, err error, want bool, checkMode bool) bool {
+		vm.Assert("C02.history_success_iff_reference_succeeds."+what, (err == nil) == want)
+		if (err == nil) != want {
+			return false
+		}
+		agree := c02Agree(v, ref, checkMode)
+		vm.Assert("C02.history_changes_what_reference_changes."+what, agree)
+		return agree
+	}
+	firstIsDir := vm.Bool("firstIsDirectory")
+	if firstIsDir {
+		if !step("make", v.FS.Mkdir("/a", 0o755), ref.mkdir("/a"), false) {
+			return
+		}
+	} else {
+		h, err := v.FS.Create("/a")
+		if err == nil {
+			_, err = h.Write([]byte("p"))
+			if cerr := h.Close(); err == nil {
+				err = cerr
+			}
+		}
+		want := ref.createMode("/a", false, true, 0o666)
+		if x := ref.find("/a"); x != nil {
+			x.size = 1
+		}
+		if !step("make", err, want, false) {
+			return
+		}
+	}
+	if !step("rename", v.FS.Rename("/a", "/b"), ref.rename("/a", "/b"), false) {
+		return
+	}
+	switch vm.Choice("oldNameTakenBy", 3) {
+	case 0:
+		h, err := v.FS.Create("/a")
+		if err == nil {
+			err = h.Close()
+		}
+		if !step("reuse", err, ref.createMode("/a", false, true, 0o666), false) {
+			return
+		}
+	case 1:
+		if !step("reuse", v.FS.Mkdir("/a", 0o755), ref.mkdir("/a"), false) {
+			return
+		}
+	}
+	target := []string{"/b", "/a"}[vm.Choice("attributeOf", 2)]
+	exists := ref.find(target) != nil
+	switch vm.Choice("attribute", 3) {
+	case 0:
+		step("chmod", v.FS.Chmod(target, 0o600), ref.chmod(target, 0o600), exists)
+	case 1:
+		step("chown", v.FS.Chown(target, 7, 8), exists, false)
+	case 2:
+		step("chtimes", v.FS.Chtimes(target, time.Unix(1000, 0), time.Unix(2000, 0)), exists, false)
+	}
+	// the renamed entry still holds its content
+	if !firstIsDir {
+		st, serr := v.FS.Stat("/b")
+		vm.Assert("C02.history_renamed_file_keeps_its_size", serr == nil && st.Size() == 1)
+	}
+	vm.Assert("C02.history_locks_free", v.Env.LocksFree())
 }
